@@ -102,7 +102,7 @@ theorem wr_modifyAt (env : Env) (f : Tree → Tree) (hfv : ∀ s, (f s).value = 
 
 /-! ### `namespaces_in_scope` reads the chain through its declaration lists only -/
 
-theorem traverseChain_congr : ∀ (c c' : List Tree) (seen : List Nat),
+theorem ddTraverseChain_congr : ∀ (c c' : List Tree) (seen : List Nat),
     c.map Tree.nsDecls = c'.map Tree.nsDecls → traverseChain seen c = traverseChain seen c'
   | [], [], _, _ => rfl
   | [], _ :: _, _, h => by simp at h
@@ -110,12 +110,12 @@ theorem traverseChain_congr : ∀ (c c' : List Tree) (seen : List Nat),
   | a :: c, a' :: c', seen, h => by
     simp only [List.map_cons, List.cons.injEq] at h
     simp only [traverseChain, h.1]
-    rw [traverseChain_congr c c' _ h.2]
+    rw [ddTraverseChain_congr c c' _ h.2]
 
-theorem namespacesInScopeChain_congr (c c' : List Tree)
+theorem ddNamespacesInScopeChain_congr (c c' : List Tree)
     (h : c.map Tree.nsDecls = c'.map Tree.nsDecls) :
     namespacesInScopeChain c = namespacesInScopeChain c' := by
-  simp only [namespacesInScopeChain, traverseChain_congr c c' [] h]
+  simp only [namespacesInScopeChain, ddTraverseChain_congr c c' [] h]
 
 /-! ### Start nodes that are not strictly inside the modified subtree -/
 
@@ -202,7 +202,7 @@ theorem dedupPass_writable (env : Env) (t : Tree) (path : Path) (sub : Tree)
     (fun s => dpWalk_value env s []) q path t sub hs (nsDecls_dpWalk_nil env sub)
     (fun W => keep_from_empty env sub W hu) hq chain subq hc hsq
   refine (namesWritable_eq_some_true env _ q).2 ⟨chain', subq', h1, h2, ?_⟩
-  rw [namespacesInScopeChain_congr chain' chain h3]
+  rw [ddNamespacesInScopeChain_congr chain' chain h3]
   exact h4 _ hwr
 
 /-- `deduplicate_namespaces(node)`, every start node `q` that is not strictly below `node`. -/
